@@ -142,6 +142,14 @@ func (s *MonitoredItemService) NextID() uint32 {
 	return i
 }
 
+// ownedBy reports whether the monitored item belongs to a subscription of the session.
+func ownedBy(item *MonitoredItem, sess *session) bool {
+	if item == nil || item.Sub == nil || item.Sub.Session == nil || sess == nil {
+		return false
+	}
+	return item.Sub.Session.AuthTokenID.String() == sess.AuthTokenID.String()
+}
+
 type MonitoredItem struct {
 	ID  uint32
 	Sub *Subscription
@@ -278,13 +286,12 @@ func (s *MonitoredItemService) SetMonitoringMode(sc *uasc.SecureChannel, r ua.Re
 	for i := range req.MonitoredItemIDs {
 		id := req.MonitoredItemIDs[i]
 		item, ok := s.Items[id]
-
-		if item.Sub.Session.AuthTokenID.String() != sess.AuthTokenID.String() {
-			results[i] = ua.StatusBadSessionIDInvalid
-		}
-
 		if !ok {
 			results[i] = ua.StatusBadMonitoredItemIDInvalid
+			continue
+		}
+		if !ownedBy(item, sess) {
+			results[i] = ua.StatusBadSessionIDInvalid
 			continue
 		}
 		item.Mode = req.MonitoringMode
@@ -341,10 +348,11 @@ func (s *MonitoredItemService) DeleteMonitoredItems(sc *uasc.SecureChannel, r ua
 		item, ok := s.Items[id]
 		if !ok {
 			results[i] = ua.StatusBadMonitoredItemIDInvalid
+			continue
 		}
-
-		if item.Sub.Session.AuthTokenID.String() != sess.AuthTokenID.String() {
+		if !ownedBy(item, sess) {
 			results[i] = ua.StatusBadSessionIDInvalid
+			continue
 		}
 
 		// this function gets the lock so we need to do it in the background so it can happen after our lock is released.
